@@ -360,6 +360,98 @@ func c10(x *ctx) {
 			}
 		}
 	}
+	// wrapped: the narrowing conditional (one atom) sits in a branch of an enclosing conditional whose own tests
+	// narrow nothing (`zn == 1`); x and y are probed in every inner branch, after the inner conditional, in the
+	// other branches of the enclosing conditional and after it (there the pre-conditional types hold)
+	for _, ty := range types {
+		for ai, a := range atomsFor("x", ty.classes, true) {
+			for _, ohead := range []string{"if", "unless"} {
+				for _, pos := range []string{"first-of-2", "last-of-2", "first-of-3", "middle-of-3"} {
+					if ohead == "unless" && strings.HasSuffix(pos, "-of-3") {
+						continue
+					}
+					for _, ihead := range []string{"if", "unless"} {
+						for _, itail := range []string{"none", "else"} {
+							if !thorough && (ai+len(pos)+len(ihead)+len(itail))%2 != 0 && ihead != ohead {
+								continue // quick: half of the mixed-keyword combinations
+							}
+							// the enclosing test: a bare flag, a comparison with > and one with == (quick: one of them, rotating)
+							ocond := []string{"zf", "zn > 0", "zn == 1"}[(ai+len(pos)+len(itail)+len(ohead))%3]
+							ocond2 := map[string]string{"zf": "zg", "zn > 0": "zn > 5", "zn == 1": "zn == 2"}[ocond]
+							var sb strings.Builder
+							row := 0
+							p := c10prog{}
+							line := func(s string) { sb.WriteString(s + "\n"); row++ }
+							probe := func(e env, tag string, indent string) {
+								for _, v := range []string{"x", "y"} {
+									line(indent + "dbtp " + v)
+									p.probes = append(p.probes, struct {
+										row  int
+										v    string
+										want vset
+										tag  string
+									}{row, v, e[v], tag})
+								}
+							}
+							e0 := env{"x": ty.set, "y": ySet}
+							te, fe := condTF(e0, []atom{a})
+							if ihead == "unless" {
+								te, fe = fe, te
+							}
+							inner := func() {
+								line("  " + ihead + " " + a.src())
+								probe(te, "inner-then", "    ")
+								if itail == "else" {
+									line("  else")
+									probe(fe, "inner-else", "    ")
+								}
+								line("  end")
+								probe(e0, "after-inner", "  ")
+							}
+							line("x = " + ty.expr)
+							line("y = true ? 1.5 : nil")
+							line("zn = 1")
+							line("zf = true")
+							line("zg = false")
+							line(ohead + " " + ocond)
+							switch pos {
+							case "first-of-2":
+								inner()
+								line("else")
+								probe(e0, "outer-else", "  ")
+							case "last-of-2":
+								probe(e0, "outer-then", "  ")
+								line("else")
+								inner()
+							case "first-of-3":
+								inner()
+								line("elsif " + ocond2)
+								probe(e0, "outer-elsif", "  ")
+								line("else")
+								probe(e0, "outer-else", "  ")
+							case "middle-of-3":
+								probe(e0, "outer-then", "  ")
+								line("elsif " + ocond2)
+								inner()
+								line("else")
+								probe(e0, "outer-else", "  ")
+							}
+							line("end")
+							probe(e0, "after", "")
+							p.src = sb.String()
+							neg := "+"
+							if a.neg {
+								neg = "!"
+							}
+							p.feat = fmt.Sprintf("wrapped:%s:%s:%s:one-var%s:%s", ohead, pos, ihead, neg, itail)
+							p.detail = fmt.Sprintf("type %s, atom %s", ty.name, a.src())
+							progs = append(progs, p)
+						}
+					}
+				}
+			}
+		}
+	}
 	// run
 	cases := make([]*engine.Case, len(progs))
 	for i, p := range progs {
